@@ -143,10 +143,14 @@ def random_orthogonal(rng, n):
     return rows
 
 
-def spectrum(rng, n, kappa):
+def spectrum(rng, n, kappa, mode=None):
     if n == 1:
         return [1.0]
-    mode = rng.below(3)
+    mode = rng.below(4) if mode is None else mode
+    if mode == 3:      # one small eigenvalue, the rest clustered at the top (seeded change C01-e3: More-Thuente as the default search fails there)
+        s = [kappa * (1.0 - 1e-3 * rng.unit() * (1 if rng.chance(0.5) else 0)) for _ in range(n)]
+        s[0] = 1.0; s[-1] = kappa
+        return s
     if mode == 0:      # spread
         s = [kappa ** rng.unit() for _ in range(n)]
     elif mode == 1:    # clustered at both ends
@@ -159,10 +163,10 @@ def spectrum(rng, n, kappa):
     return s
 
 
-def random_quadratic(rng, n, kappa, scale):
+def random_quadratic(rng, n, kappa, scale, mode=None):
     """A = scale * Q' diag(spec) Q (symmetrised), minimiser xs in [-5,5]^n, a = -A xs; lambda_min = scale"""
     Q = random_orthogonal(rng, n)
-    spec = spectrum(rng, n, kappa)
+    spec = spectrum(rng, n, kappa, mode)
     A = [[0.0] * n for _ in range(n)]
     for i in range(n):
         for j in range(i, n):
@@ -231,6 +235,27 @@ def gen(rng, tier):
             params.append(("solver::quasi::initialization", "s", "scaled"))
         ops.append(make_op("solver", sid, "-", "-", params, quad_spec(A, a), x0,
                            f"stmt {f2h(scale)} {lst(xs, f2h)}"))
+    # corners of the statement's domain (from a forked stream): large dimension x extreme curvature scale x extreme condition number x
+    # each spectrum shape, default configuration - where a changed default line search / a slip in an update formula shows first
+    # (seeded changes C01-e2: low curvature, n >= 6, spread spectrum; C01-e3: scale >= 30, one small eigenvalue, n = 16)
+    rc = rng.fork()
+    for k in range(80 if tier == "quick" else 600):
+        sid = "lbfgs" if k % 2 == 0 else "bfgs"
+        n = rc.choice([12, 14, 15, 16, 16])
+        kappa = rc.choice([1e3, 1e3, 10.0 ** rc.uniform(2.5, 3.0)])
+        scale = rc.choice([1e-3, 3e-3, 30.0, 100.0, 1e3, 10.0 ** rc.uniform(1.5, 3.0), 10.0 ** rc.uniform(-3.0, -2.0)])
+        A, a, xs = random_quadratic(rc, n, kappa, scale, mode=k // 2 % 4)
+        x0 = start_point(rc, n)
+        params = [("solver::epsilon", "f", 1e-8), ("solver::max_evals", "i", 20000)]
+        ops.append(make_op("solver", sid, "-", "-", params, quad_spec(A, a), x0, f"stmt {f2h(scale)} {lst(xs, f2h)}"))
+    # ... and the sharpest of these corners more densely: n = 16, curvature scale 100..1e3, one small eigenvalue and the rest at the
+    # top, so that |f| ~ 1e7..1e8 near the minimiser and the decrease along the last steps is of the order of an ulp of f
+    for k in range(40 if tier == "quick" else 300):
+        sid = "bfgs" if k % 4 else "lbfgs"
+        scale = rc.choice([100.0, 300.0, 1e3])
+        A, a, xs = random_quadratic(rc, 16, rc.choice([100.0, 300.0, 1e3]), scale, mode=3)
+        params = [("solver::epsilon", "f", 1e-8), ("solver::max_evals", "i", 20000)]
+        ops.append(make_op("solver", sid, "-", "-", params, quad_spec(A, a), start_point(rc, 16), f"stmt {f2h(scale)} {lst(xs, f2h)}"))
     # truthfulness of `converged` for the 17 line-search solvers
     for k in range(n_truth):
         sid = LS_SOLVERS[k % len(LS_SOLVERS)]
